@@ -132,7 +132,7 @@ def stateAfter (y : State) : List (Op × Option Who) → State
   | [] => y
   | (op, h) :: rest => stateAfter (sysStep y op h).1 rest
 
-/-- a run the hypotheses admit: two sessions of both protocol generations, a listen, a burst, the timer, a held
+/-- a run the hypotheses allow: two sessions of both protocol generations, a listen, a burst, the timer, a held
 fan-out with a change between its writes, a ResourceUpdated, cached calls, a table dump, a close, the end -/
 def sampleRun : List (Op × Option Who) :=
   [(.config .on .unset .on true, none), (.connect 0 1 true [.tools], none), (.listen 0 false, none),
